@@ -83,14 +83,19 @@ package geom
 // Ramer-Douglas-Peucker: every index into the sequence is in range for every threshold (negative and NaN included),
 // only dst is written, and what is appended is a whole number of points
 //@ func ramerDouglasPeucker
-//@   requires SeqInv(seq)
+//@   split seq.ctype 0 1 2 3
+//@   requires SeqInv(seq) && (cap(dst) == 0 || region(dst) != region(seq.floats))
 //@   modifies dst
 //@   ensures len(result) >= len(dst) && (len(result) - len(dst)) % Dim(seq.ctype) == 0
-//@   loop 0 invariant 0 <= start && start <= end && end == NPts(seq) - 1 && len(dst) >= len(old(dst)) && ((cap(old(dst)) > 0 && region(dst) == region(old(dst)) && offset(dst) == offset(old(dst))) || fresh(dst) || (cap(old(dst)) == 0 && cap(dst) == 0)) && (len(dst) - len(old(dst))) % Dim(seq.ctype) == 0
-//@   loop 1 invariant 0 <= start && start <= end && end == NPts(seq) - 1 && len(dst) >= len(old(dst)) && ((cap(old(dst)) > 0 && region(dst) == region(old(dst)) && offset(dst) == offset(old(dst))) || fresh(dst) || (cap(old(dst)) == 0 && cap(dst) == 0)) && (len(dst) - len(old(dst))) % Dim(seq.ctype) == 0 && 0 <= newEnd && newEnd <= end
-//@   loop 2 invariant 0 <= start && start <= end && end == NPts(seq) - 1 && len(dst) >= len(old(dst)) && ((cap(old(dst)) > 0 && region(dst) == region(old(dst)) && offset(dst) == offset(old(dst))) || fresh(dst) || (cap(old(dst)) == 0 && cap(dst) == 0)) && (len(dst) - len(old(dst))) % Dim(seq.ctype) == 0 && 0 <= newEnd && newEnd <= end && start + 1 <= i && 0 <= maxDistIdx && maxDistIdx <= end
+//@   ensures forall q :: 0 <= q && q < len(dst) ==> same(result[q], old(dst[q]))
+//@   ensures NPts(seq) >= 1 ==> len(result) >= len(dst) + Dim(seq.ctype)
+//@   ensures NPts(seq) >= 1 ==> (forall d :: 0 <= d && d < Dim(seq.ctype) ==> same(result[len(dst) + d], old(seq.floats[d])))
+//@   loop 0 invariant 0 <= start && start <= end && end == NPts(seq) - 1 && len(dst) >= len(old(dst)) && ((cap(old(dst)) > 0 && region(dst) == region(old(dst)) && offset(dst) == offset(old(dst))) || fresh(dst) || (cap(old(dst)) == 0 && cap(dst) == 0)) && (len(dst) - len(old(dst))) % Dim(seq.ctype) == 0 && (forall q :: 0 <= q && q < len(old(dst)) ==> same(dst[q], old(dst[q]))) && (len(dst) > len(old(dst)) ==> (forall d :: 0 <= d && d < Dim(seq.ctype) ==> same(dst[len(old(dst)) + d], old(seq.floats[d])))) && ((start == 0 && len(dst) == len(old(dst))) || len(dst) > len(old(dst)))
+//@   loop 1 invariant 0 <= start && start <= end && end == NPts(seq) - 1 && len(dst) >= len(old(dst)) && ((cap(old(dst)) > 0 && region(dst) == region(old(dst)) && offset(dst) == offset(old(dst))) || fresh(dst) || (cap(old(dst)) == 0 && cap(dst) == 0)) && (len(dst) - len(old(dst))) % Dim(seq.ctype) == 0 && 0 <= newEnd && newEnd <= end && (forall q :: 0 <= q && q < len(old(dst)) ==> same(dst[q], old(dst[q]))) && (len(dst) > len(old(dst)) ==> (forall d :: 0 <= d && d < Dim(seq.ctype) ==> same(dst[len(old(dst)) + d], old(seq.floats[d])))) && len(dst) > len(old(dst))
+//@   loop 2 invariant 0 <= start && start <= end && end == NPts(seq) - 1 && len(dst) >= len(old(dst)) && ((cap(old(dst)) > 0 && region(dst) == region(old(dst)) && offset(dst) == offset(old(dst))) || fresh(dst) || (cap(old(dst)) == 0 && cap(dst) == 0)) && (len(dst) - len(old(dst))) % Dim(seq.ctype) == 0 && 0 <= newEnd && newEnd <= end && start + 1 <= i && 0 <= maxDistIdx && maxDistIdx <= end && (forall q :: 0 <= q && q < len(old(dst)) ==> same(dst[q], old(dst[q]))) && (len(dst) > len(old(dst)) ==> (forall d :: 0 <= d && d < Dim(seq.ctype) ==> same(dst[len(old(dst)) + d], old(seq.floats[d])))) && len(dst) > len(old(dst))
 //@ func LineString.Simplify
 //@   ensures result.seq.ctype == s.seq.ctype
+//@   ensures NPts(result.seq) >= 1 && NPts(s.seq) >= 1 ==> (forall d :: 0 <= d && d < Dim(s.seq.ctype) ==> same(result.seq.floats[d], s.seq.floats[d]))
 //@ func MultiLineString.Simplify
 //@   ensures result.ctype == m.ctype && len(result.lines) <= len(m.lines)
 //@   loop 0 invariant MLSInv(m)
